@@ -254,7 +254,11 @@ func goxRules(c *Ctx) {
 				okd = true
 			}
 		}
-		q.add("GOX", "context cancellation closes the object", okd, "Close is deferred in the watcher", cl...)
+		// ... or called explicitly on every path after the wait
+		if !okd && len(recvs) == 1 && len(cl) > 0 {
+			okd = !P.PathExists(q.fn, recvs[0], an.IsReturn, an.In(cl), nil)
+		}
+		q.add("GOX", "context cancellation closes the object", okd, pickS(okd, "Close is deferred in the watcher, or called on every path after the wait", "the watcher can finish without closing the object"), cl...)
 	}
 	recvDoneOf("(*Buffer).NewConsumer$go1", "consumer.ctx")
 	recvDoneOf("(*Channel).cleanup", "Channel.ctx")
@@ -343,6 +347,60 @@ func onceRules(c *Ctx) {
 						}
 					}
 				}
+			}
+			// the other idiom: a flag set only inside the Once body decides between nil and the error
+			if !hasErr && allNil(vs) {
+				fIfs, fNegs := P.IfsOn(q.fn, func(cond ssa.Value) bool {
+					ld, isL := isLoad(cond)
+					if !isL || !isBoolT(cond) {
+						return false
+					}
+					cell := P.CellOf(ld.X)
+					if cell == nil {
+						return false
+					}
+					// every store of true to the flag lies in a closure handed to (*sync.Once).Do
+					sts := P.CellStores(cell)
+					for _, st := range sts {
+						if b, isB := constBool(st.Val); isB && !b {
+							continue
+						}
+						if st.Parent() == q.fn || an.ClosureRole(an.Host(st.Parent())) != "Do" {
+							return false
+						}
+					}
+					return len(sts) > 0
+				})
+				for i, fi := range fIfs {
+					ts := 0
+					if fNegs[i] {
+						ts = 1
+					}
+					if q.onlyViaEdge(r, fi, ts) {
+						hasErr, nilOnlyInOnce = true, true
+					}
+				}
+				if hasErr {
+					// ... and the other edge yields an error
+					hasErr = false
+					for _, r2 := range returnsOf(q.fn) {
+						for _, v := range c.retVals(r2, 0) {
+							if P.IsCallResult(v, "errors.New", 0) {
+								hasErr = true
+							}
+						}
+					}
+				}
+			} else if hasErr && len(vs) == 1 && P.IsCallResult(vs[0], "errors.New", 0) && func() bool {
+				for _, r2 := range returnsOf(q.fn) {
+					if r2 != r && allNil(c.retVals(r2, 0)) {
+						return true
+					}
+				}
+				return false
+			}() {
+				// the error return of the flag idiom: judged together with the nil return
+				continue
 			}
 			q.add("ONCE", "only the first Close returns nil", hasErr && nilOnlyInOnce, pickS(hasErr && nilOnlyInOnce, "the result starts as an error and is set to nil only inside the Once body", "Close can return nil without having run the close body (a second Close must return an error)"), r)
 		}
